@@ -19,6 +19,7 @@ import TsrunVerif.Driver.Obj
 import TsrunVerif.Driver.Comb
 import TsrunVerif.Driver.Coerce
 import TsrunVerif.Driver.Compile
+import TsrunVerif.Driver.RadixLit
 
 /-! `tvdriver <model>`: line protocol, one observation line per case line. -/
 
@@ -50,6 +51,7 @@ def main (args : List String) : IO UInt32 := do
   | ["roots"] => loop stdin stdout TsrunVerif.Driver.rootsLine; return 0
   | ["life"] => loop stdin stdout TsrunVerif.Driver.lifeLine; return 0
   | ["coerce"] => loop stdin stdout TsrunVerif.Driver.coerceLine; return 0
+  | ["radix"] => loop stdin stdout TsrunVerif.Driver.radixLine; return 0
   | ["compile"] => loop stdin stdout TsrunVerif.Driver.CompileD.compileDLine; return 0
   | ["comb"] => loop stdin stdout TsrunVerif.Driver.combLine; return 0
   | ["obj"] => loop stdin stdout TsrunVerif.Driver.objLine; return 0
